@@ -64,14 +64,12 @@ def _cmp_tokens(ctx, c, enc_name="_encode", dec_name="_decode"):
 @rule(P, "D6.2", "T-SIB", floor=12)
 def d6_2(ctx):
     """Encode/decode layout symmetry: the fixed-width fields written are the fields read, in the same order."""
-    strbase = ctx.model.cls(f"{DT}:StringDataType")
+    # strings (STRING, SHORT_STRING, LOGIX_STRING, STRING2, STRINGN, STRINGI): prefix and characters written are the prefix and
+    # characters read - decided by folding both directions on witness values (D6.9); an earlier form compared the token lists of
+    # `_encode` and `_decode` and alarmed when the character read moved into a shared helper
+    d6_9(ctx)
     targets = []
-    for c in datatype_classes(ctx):
-        if strbase in c.mro() and c is not strbase and isinstance(ctx.folder.class_attr(c, "len_type"), ClassRef) and c.module.name != PCCC:
-            targets.append((c, "_encode", "_decode"))
     targets.append((ctx.model.cls(f"{DT}:DATE_AND_TIME"), "encode", "_decode"))
-    targets.append((ctx.model.cls(f"{DT}:STRINGN"), "encode", "_decode"))
-    targets.append((ctx.model.cls(f"{DT}:STRINGI"), "encode", "decode"))
     for c, en, dn in targets:
         efn, dfn, lay, rl, tw, tr = _cmp_tokens(ctx, c, en, dn)
         if lay is None or rl is None:
@@ -281,99 +279,16 @@ def d6_5(ctx):
               "dict and positional struct encodings do not walk cls.members identically", **facts)
 
 
-@rule(P, "D6.6", "T-DOM", floor=4)
+@rule(P, "D6.6", "T-WITNESS", floor=4)
 def d6_6(ctx):
-    """Fixed arrays: too few values raise before encoding; exactly `length` elements are encoded; bit arrays chunk by element bits."""
-    arr = ctx.model.cls(f"{DT}:Array.Array")
-    enc = arr.methods.get("encode")
-    if enc is None:
-        ctx.undecided(ckey(arr.key + ".encode"), arr.node, "anchor vanished")
-        return
-    g = ctx.cfg(enc)
-    length_var = None
-    for n in walk(enc):
-        if isinstance(n, ast.Assign) and isinstance(n.value, ast.BoolOp) and isinstance(n.value.op, ast.Or) and atom_name(n.value.values[-1]) == "cls.length":
-            length_var = atom_name(n.targets[0])
-    joins = [n for n in walk(enc) if isinstance(n, ast.Call) and isinstance(n.func, ast.Attribute) and n.func.attr == "join"]
-    jn = g.nodes_of(_stmt(joins[0]))[0] if joins and g.nodes_of(_stmt(joins[0])) else None
-    from ..guards import branch_outcome
+    """Fixed arrays: too few values raise before encoding; exactly `length` elements are encoded (surplus cut); open lengths
+    encode every value and refuse a partial last element; bit-string elements take element bits consecutive bools each.
+    Decided by folding the generated class's encode / decode on witness element types (8- and 16-bit strings, scalars) for each
+    kind of length (D6.12); an earlier form compared the guards' arithmetic inside `encode` and alarmed when the counting moved
+    into a helper."""
+    from .driver import _array_rule
 
-    # the unit of the value list: `chunk` bools per element for bit-string element types, one value per element otherwise.
-    # chunk is the local bound to element_type.size * 8 (directly, or as the bit-string arm of a conditional expression whose
-    # other arm is 1).  All length arithmetic is then checked in both units, with chunk replaced by its value.
-    chunk, scalar_chunk = None, None
-    for n in walk(enc):
-        if isinstance(n, ast.Assign) and isinstance(n.targets[0], ast.Name):
-            v = n.value
-            arms = [(v.body, v.orelse)] if isinstance(v, ast.IfExp) else [(v, None)]
-            for body, other in arms:
-                L = lin(body)
-                if L is not None and L.terms == {"cls.element_type.size": 8} and L.const == 0:
-                    chunk = n.targets[0].id
-                    if other is not None:
-                        scalar_chunk = ctx.folder.eval(other, arr.module)
-    if chunk is not None and scalar_chunk is None:
-        consts = [ctx.folder.eval(n.value, arr.module) for n in walk(enc) if isinstance(n, ast.Assign) and atom_name(n.targets[0]) == chunk and isinstance(ctx.folder.eval(n.value, arr.module), int)]
-        if len(consts) == 1:
-            scalar_chunk = consts[0]
-    bit_sizes = sorted({ctx.folder.class_attr(c, "size") for c in datatype_classes(ctx) if c.has_base_named("BitArrayType") and isinstance(ctx.folder.class_attr(c, "size"), int) and ctx.folder.class_attr(c, "size") > 0})
-    modes = [("values", ({chunk: Lin(scalar_chunk)} if chunk and isinstance(scalar_chunk, int) else {}), 1)] + [(f"{8 * s}-bit strings", {chunk: Lin(8 * s)}, 8 * s) for s in bit_sizes if chunk]
-    int_tests = [t for t in g.nodes if t.kind == "test" and isinstance(t.ast, ast.Call) and call_name(t.ast) == "isinstance" and atom_name(t.ast.args[0]) == length_var and atom_name(t.ast.args[1]) == "int"]
-    bad_modes, guard = [], None
-    for name, sub, k in modes:
-        found = None
-        for t in g.nodes:
-            if t.kind == "test" and int_tests and g.branch_dominates(int_tests[0], True, t):
-                c = cmp_norm(t.ast, subst=sub)
-                if c and c[0] == "<=0" and length_var and c[1].terms == {"len(values)": 1, length_var: -k} and c[1].const == 1:
-                    raised, cont = branch_outcome(g, t, True)
-                    if raised == {"DataError"} and not cont:
-                        found = t
-        if found is None:
-            bad_modes.append(name)
-        guard = guard or found
-    ok = bool(int_tests) and not bad_modes and len(modes) > 1 and scalar_chunk in (None, 1)
-    ctx.check(ok, ckey(arr.key + ".encode", "too-few"), guard.ast if guard else enc, f"fewer than length x (values per element) raises DataError for fixed lengths, in every unit ({[m[0] for m in modes]})",
-              f"fixed-length arrays do not reject too few values with DataError before encoding when the elements are {bad_modes or 'bit strings (no per-element bool count found)'}: the count of supplied values is compared in the wrong unit", modes=[m[0] for m in modes])
-    # count encoded = length for fixed lengths: on the fixed side the bound of the element loop is the length itself, and it
-    # is not recomputed from the supplied values after the two sides merge
-    bound = None
-    if joins and isinstance(joins[0].args[0], (ast.GeneratorExp, ast.ListComp)):
-        it = joins[0].args[0].generators[0].iter
-        if isinstance(it, ast.Call) and call_name(it) == "range" and len(it.args) == 1:
-            bound = atom_name(it.args[0])
-    assigns = [n for n in g.nodes if n.kind == "stmt" and isinstance(n.ast, ast.Assign) and atom_name(n.ast.targets[0]) == bound]
-    fixed_side = [a for a in assigns if int_tests and g.branch_dominates(int_tests[0], True, a)]
-    other_side = [a for a in assigns if int_tests and g.branch_dominates(int_tests[0], False, a)]
-    merged = [a for a in assigns if a not in fixed_side and a not in other_side]
-    fixed_assign = bool(fixed_side) and all(atom_name(a.ast.value) == length_var for a in fixed_side) and not merged
-    ctx.check(bound is not None and fixed_assign, ckey(arr.key + ".encode", "count"), joins[0] if joins else enc, f"exactly `{length_var}` elements are encoded for fixed lengths (over-long inputs truncated)",
-              "the number of encoded elements is not the fixed array length" + (f": `{src(merged[0].ast)}` recomputes it from the supplied values for every kind of length" if merged else ""), bound=bound)
-    # open lengths: the element count is the value count divided by the unit, a partial last element raises DataError
-    open_ok = False
-    for a in other_side:
-        for name, sub, k in modes[1:2] or modes:
-            L = lin(a.ast.value, subst=sub)
-            whole = L is not None and (L.terms == {f"(len(values))//{k}": 1} or (k == 1 and L.terms == {"len(values)": 1})) and L.const == 0
-            part = [t for t in g.nodes if t.kind == "test" and g.branch_dominates(t, False, a) and (lin(t.ast, subst=sub) or Lin()).terms == {f"(len(values))%{k}": 1} and branch_outcome(g, t, True) == ({"DataError"}, False)]
-            open_ok = whole and (k == 1 or bool(part))
-    ctx.check(open_ok, ckey(arr.key + ".encode", "open-count"), other_side[0].ast if other_side else enc, "open lengths encode len(values) // unit elements and reject a partial last element",
-              "for unbounded / length-prefixed arrays the element count is not len(values) // (values per element) with a partial last element rejected: trailing bools are dropped silently")
-    # bit arrays
-    tile_ok = False
-    for n in walk(enc):
-        if isinstance(n, ast.ListComp) and isinstance(n.elt, ast.Subscript) and isinstance(n.elt.slice, ast.Slice):
-            gen = n.generators[0]
-            i = atom_name(gen.target)
-            sl = n.elt.slice
-            it = gen.iter
-            if isinstance(it, ast.Call) and call_name(it) == "range" and len(it.args) == 3:
-                L = lin(sl.upper) if sl.upper is not None else None
-                stop = lin(it.args[1], subst={chunk: Lin(8)}) if chunk else None
-                stop_ok = atom_name(it.args[1]) == f"len({atom_name(n.elt.value)})" or (stop is not None and bound is not None and stop == Lin(0, {bound: 8}))
-                tile_ok = (ctx.folder.eval(it.args[0], arr.module) == 0 and stop_ok and atom_name(it.args[2]) == chunk
-                           and sl.lower is not None and atom_name(sl.lower) == i and L is not None and L.terms == {i: 1, chunk: 1} and L.const == 0)
-    ctx.check(chunk is not None and tile_ok, ckey(arr.key + ".encode", "bit-chunks"), enc, "bit-array elements take element_type.size*8 consecutive bools each", "bit-array arrays are not tiled into element_type.size*8-bool chunks from index 0")
+    _array_rule(ctx)
 
 
 def _stmt(n):
